@@ -260,6 +260,8 @@ fn run(ctx: &mut Ctx) {
     let cfgs = vec![Cfg::default(), r.clone()];
     let u1 = Universe::u1();
     ctx.exhaustive("U1 x {plain,-r}", u1.subset_count() * 2, &|i| Case::new(u1.subset(i / 2 + 1), cfgs[(i % 2) as usize].clone()), &case_fn);
+    let urep = Universe::rep_families();
+    ctx.exhaustive("Urep x {plain,-r}", urep.subset_count() * 2, &|i| Case::new(urep.subset(i / 2 + 1), cfgs[(i % 2) as usize].clone()), &case_fn);
     let u3a = Universe::u3a();
     ctx.exhaustive("U3a x {plain,-r}", u3a.subset_count() * 2, &|i| Case::new(u3a.subset(i / 2 + 1), cfgs[(i % 2) as usize].clone()), &case_fn);
     let u3b = Universe::u3b();
